@@ -3,20 +3,30 @@ from . import COMMON_TB, NOTE
 PROP = {
     "modules": ["Proofs.C08", "Proofs.C08Source"],
     "streams": [{"name": "eparse"}, {"name": "render"}, {"name": "exprs"}],
-    "rule": "eparse: exhaustive token soups of length<=3/4 over 23 lexemes, grammar-generated expressions and statements "
-            "with random spacing, mutants and random soups; render: harvested test templates, 299 whole templates about times ({{ t }}, "
-            "t | date: f, date on date strings, times inside containers), every sequence of at most 3 (thorough: 4) pieces of a "
-            "31-piece tag alphabet, and grammar-generated templates "
-            "with generated environments, through ParseTemplateLocation+Render; non-trivial = accepted / non-empty output",
+    "rule": "eparse: exhaustive token soups of length<=3/4 over 23 lexemes (as expressions), grammar-generated expressions and "
+            "assign/for/cycle/when statements with random spacing, mutants and random soups; compared with the model: accept / reject "
+            "of an expression, and for an accepted statement the assigned variable, the cycle group and values, the loop variable "
+            "and which modifiers are present, the number of when values - not the expression tree; render: harvested test templates, 299 whole templates about times ({{ t }}, t | date: f, date on date "
+            "strings, times inside containers), "
+            "every sequence of <=3 (quick) / 4 (thorough) pieces of a 31-piece alphabet (bare, inside a loop, inside an if) and "
+            "grammar-generated templates "
+            "with generated environments, through ParseTemplateLocation+Render; exprs (every case a render line; oracles on the real "
+            "results): array length 0..5 x index -7..7 and non-integer indices as literal and variable, first/last/size, map "
+            "property vs index, size fallback and shadowing, missing keys, nil / scalar receivers, literal spellings, strict "
+            "variables on the final value only, unknown filter / too many arguments, nested pipelines and generated pipelines "
+            "against their assign decomposition at the last pipe, and respaced variants (space, tab, LF, CRLF runs) of objects and "
+            "assign tags; non-trivial = accepted / non-empty output",
     "trusted_base": COMMON_TB + ["the ragel/goyacc generated tables are not translated: the recursive-descent model is compared with them on every run"],
     "assumptions": [],
 }
 
 TEXT = {
     "text": ('Theorems over all values and environments (Proofs.C08): literals denote themselves, a name its binding (nil when undefined), '
-              'a[i] / a[-k] / out-of-range / non-integer index, first/last/size of arrays, m.k = m["k"], missing key nil, size '
+              'a[i] / a[-k] / out-of-range for a Go int index, a string / bool / nil index is nil, first/last/size of arrays, '
+              'm.k = m["k"] on a string-keyed map, missing key nil, size '
               'fallback and shadowing, properties of nil and scalars are nil, drops are looked through, one pipeline step '
-              'evaluates receiver then arguments left to right, an unknown filter is an error, and a pipeline is the left fold of '
+              'with a registered filter evaluates receiver then arguments left to right, an unknown filter is an error before anything '
+              'is evaluated, and a pipeline all of whose filters are registered is the left fold of '
               'its steps (pipeline_fold). Theorems about the SOURCE TEXT and the render level (Proofs.C08Source), for all byte strings: '
               '(literals) a digit string with optional - denotes its decimal value as a Go int, leading zeros allowed, a syntax error '
               'outside int64 (int_literal_denotes, int_literal_round_trip with strconv.Itoa); a quoted string without that quote '
@@ -27,21 +37,25 @@ TEXT = {
               'VT, FF, CR) separates them (well_spaced_tokens), so two well-spaced texts of the same lexemes have the same parse as '
               'expression and as assign/for/cycle/when statement (same_lexemes_same_parse, whitespace_between_lexemes) and the same '
               'compiled object/assign node (whitespace_compile), and a one-object template {{ ... }} written with any such whitespace, '
-              'newlines included, is tokenised, compiled and rendered (run) to the same result (object_whitespace_end_to_end); recorded counterexamples where a space does matter: inside a lexeme '
+              'newlines included, is tokenised, compiled and rendered (run) to the same result - for GoodDelims, the same trim '
+              'hyphens in both spellings and Clean arguments: non-empty, no closing delimiter inside, not ending in `-` '
+              '(object_whitespace_end_to_end); recorded counterexamples where a space does matter: inside a lexeme '
               '(-1 / - 1, == / = =) and the two scanner rules that glue parts together - `f : a` (a syntax error, `f: a` is not) and '
               '`a. b` (a syntax error, `a.b` and `a .b` are not). (pipeline through assign) {% assign t = E %}{{ t | g: b ... }} makes '
               'the same writer calls, fails alike and ends in the same state up to t as {{ E | g: b ... }} for fresh t whenever E '
-              'evaluates (pipeline_split_assign), by induction the fully stepwise form (pipeline_stepwise); when E fails both fail at '
+              'evaluates (pipeline_split_assign), by induction the fully stepwise form when the WHOLE pipeline evaluates without error '
+              '(pipeline_stepwise: a failing later step is not covered - it fails at the line of its assign, not of the object); when E fails both fail at '
               'their own line, the single object with the outermost unknown filter\'s error if there is one '
               '(pipeline_split_assign_fails). (arity) more arguments than parameters is the parity FilterError before any conversion '
               '(too_many_arguments_err, filter_too_many_arguments, registered_filter_sig), missing arguments are zero values / '
               'identity default functions (missing_arguments_default). (strict variables) only a nil FINAL value is the '
               'undefined-variable error, a nil inside a pipeline is not (strict_only_final_value, strict_final_nil_fails, '
-              'obj_nil_prints_nothing). Ties: the expression lexer/parser model is compared with the generated ragel/yacc front '
-              'end (`eparse`), whole expressions in templates with the real evaluator (`render`, `exprs` with lookup oracles on '
-              'the real results).'),
+              'obj_nil_prints_nothing). Ties: `eparse` compares the accept/reject verdict of the expression lexer/parser model with the '
+              'generated ragel/yacc front end (for assign/for/cycle/when statements also the variable, group, flags and counts); the '
+              'parse TREE (precedence, which arguments belong to which filter) is tied only through evaluation: whole expressions in '
+              'templates with the real evaluator (`render`, `exprs` with lookup oracles on the real results).'),
     "design_ref": 'DESIGN.md 6 C08',
-    "note": NOTE + ('Number literals outside the lexer model (the negative zero -0.0) are answered `unmodelled`. The whitespace theorems are about the parser model (tied by `eparse`); Expr has no printer, so they are stated over lexeme lists, not over a round trip parse(show e) = e. The spellings `f : a` and `a. b` are syntax errors in the real code as in the model (scanner rules identifier\':\' and \'.\'identifier); whether the property\'s last sentence covers them is an interpretation (DESIGN 7.2).'),
+    "note": NOTE + ('Number literals outside the lexer model (the negative zero -0.0) are answered `unmodelled`. The whitespace theorems are about the parser model, which `eparse` ties to the real front end in its accept/reject verdict only (the trees through evaluation by `render`/`exprs`, whose respaced variants are compared on the real engine); Expr has no printer, so they are stated over lexeme lists, not over a round trip parse(show e) = e. The spellings `f : a` and `a. b` are syntax errors in the real code as in the model (scanner rules identifier\':\' and \'.\'identifier); the index theorems are for Go int indices (other integer widths and floats: DESIGN 7.2, no theorem), pipeline_stepwise and pipeline_fold for pipelines that succeed resp. whose filters all exist; whether the property\'s last sentence covers them is an interpretation (DESIGN 7.2).'),
     "technique": ('Lean 4 proof (case analysis of lookup on the value type; induction over pipelines; longest-match analysis of the scanner rule by rule; induction over lexeme lists) + model/implementation '
               'correspondence'),
 }
